@@ -693,6 +693,14 @@ public:
       return mHasValueSet || mIncremented;
    } // TypedArg< LevelCounter>::hasValue
 
+   /// Adds the value of the destination variable to the string.
+   ///
+   /// @param[in]  dest  The string to append the default value to.
+   void defaultValue( std::string& dest) const override
+   {
+      dest.append( format::toString( mDestVar.value()));
+   } // TypedArg< LevelCounter>::defaultValue
+
    /// Overwrites the 'value mode' which specifies if a value is needed for this
    /// argument or not.
    /// Here in the base class, the only value mode that can be set is
